@@ -99,6 +99,21 @@ def worker(version, args):
                        for a in ("message", "sound_name") if _used_string(ef, a))
             inputs.append(("history", p, True, {"history_seed": hseed, "ops": H.ops[-30:], "used_effect_strings": nstr}))
             del scn
+        # (c2) a populated file: one attribute-complete effect of every effect type and one condition of every condition type of
+        #      this version (0 and small references over-represented) - what the random histories only reach by chance
+        with cc.quiet():
+            scn = AoE2DEScenario.from_file(small)
+            scn.map_manager.map_size = 4
+            H = histories.History(scn, random.Random(f"C01:populate:{args['seed']}:{version}"), version)
+            st, e = common.outcome(H.populate)
+            d = os.path.join(tmp, "in_pop"); os.makedirs(d)
+            p = os.path.join(d, "base.aoe2scenario")
+            st, e = common.outcome(scn.write_to_file, p) if st == "ok" else (st, e)
+        if st == "ok":
+            nstr = sum(1 for t in scn.trigger_manager.triggers for ef in t.effects
+                       for a in ("message", "sound_name") if _used_string(ef, a))
+            inputs.append(("history", p, True, {"probe": "populated", "history_seed": f"C01:populate:{args['seed']}:{version}", "used_effect_strings": nstr}))
+        del scn
         # (e) section-edited inputs: player attributes written DIRECTLY into the file fields that represent them (primary and
         #     duplicate fields together, harness/layout.py), values at 0 / boundaries, saved without the managers - these files
         #     are in normal form but were not shaped by the managers' own commit
